@@ -78,10 +78,18 @@ Print Assumptions C10_independent.
    addtorank=False) leave the tree and the rank lists of both tensors exactly as they were, for
    every sequence of observers and any fuel; RExternal observers are the identity by
    construction (see the header) *)
-Theorem C10_readonly : forall d obs st,
+(* FULL STATEMENT (not provable here): every read-only operation of the library — reads,
+   non-reference iteration, co-iteration, equality, emptiness and counting queries, shape
+   queries, printing/formatting, YAML dumping, footprint queries, image rendering — returns the
+   state unchanged, and rendering twice gives identical images.
+   PROVED: the three observers whose source can write (they instantiate defaults).  MISSING:
+   iteration, &, -, isEmpty, countValues, shape queries are not state-threading model functions
+   (RExternal), printing/YAML/footprints/rendering are outside the model; all of those are
+   covered by the differential observation only. *)
+Theorem C10_readonly_partial : forall d obs st,
   same_snaps (fold_left (fun st o => observe false d o st) obs st) st.
 Proof. exact observe_all_false. Qed.
-Print Assumptions C10_readonly.
+Print Assumptions C10_readonly_partial.
 
 (* the pinned code of fiber-level unflattenRanks (fixed = false) violates the property: the
    result holds boxes of the operand (S17) *)
